@@ -160,6 +160,8 @@ fn expected(op: Op) -> Obs {
 }
 
 static TICKET: AtomicUsize = AtomicUsize::new(0);
+/// the fill of `explore` comes after the shared scanners were built (second capacity sweep)
+static FILL_AFTER_SHARED: std::sync::atomic::AtomicBool = std::sync::atomic::AtomicBool::new(false);
 
 struct ForceSend<T>(T);
 unsafe impl<T> Send for ForceSend<T> {}
@@ -264,12 +266,23 @@ fn explore(scripts: &[Vec<Op>], bound: Option<usize>, max_branches: usize, budge
             ALL_JOINED.store(false, Ordering::Relaxed);
             // the shared scanner comes from the cache as well (so that scans race with builds of the same entry)
             // a cache that already holds `prefill` other configurations (bounded caches, eviction)
-            for k in 0..prefill {
-                let m = vec![ScannerMode::new("FILL", vec![Pattern::new(format!("f{k}"), k)], vec![])];
-                let _ = ScannerBuilder::new().add_scanner_modes(&m).build();
+            let fill = || {
+                for k in 0..prefill {
+                    let m = vec![ScannerMode::new("FILL", vec![Pattern::new(format!("f{k}"), k)], vec![])];
+                    let _ = ScannerBuilder::new().add_scanner_modes(&m).build();
+                }
+            };
+            let fill_after = FILL_AFTER_SHARED.load(Ordering::Relaxed);
+            if !fill_after {
+                fill();
             }
             let shared = Arc::new(ScannerBuilder::new().add_scanner_modes(&modes_a()).build().expect("A builds"));
             let shared_l = if uses_l { Some(Arc::new(ScannerBuilder::new().add_scanner_modes(&modes_l()).build().expect("L builds"))) } else { None };
+            if fill_after {
+                // everything the threads are going to look up (A's configuration, patterns, classes)
+                // is older than `prefill` other entries of whatever the library keeps process-wide
+                fill();
+            }
             let hs: Vec<_> = scripts_owned
                 .iter()
                 .cloned()
@@ -529,6 +542,35 @@ fn main() {
         }
     }
     prefilled.push(json!({"capacity_sweep": {"typical_bounds": bounds, "prefill_values": fills.len(), "threads": "[[BuildAPrime], [BuildB]]", "executions": sweep_exec}}));
+    // second sweep: the entries the threads look up are the OLDEST ones. A is built first, then F
+    // other one-pattern configurations (every F from C-16 to C+1 for the typical bounds C: a ring or
+    // LRU structure of capacity C is about to overwrite A's entries), then one thread re-creates A
+    // outside the cache lock (Scanner::try_from) or through it (build) while another thread
+    // introduces new patterns outside the cache lock
+    {
+        let bounds2: &[usize] = if tier == Tier::Quick { &[64, 128, 256] } else { &[16, 32, 64, 100, 128, 256, 512, 1000, 1024] };
+        let mut fills2: Vec<usize> = bounds2.iter().flat_map(|c| (c.saturating_sub(16)..=c + 1)).collect();
+        fills2.sort();
+        fills2.dedup();
+        let mut sweep2_exec = 0usize;
+        FILL_AFTER_SHARED.store(true, Ordering::Relaxed);
+        'sweep2: for &prefill in &fills2 {
+            for body in [vec![vec![Op::TryFromA], vec![Op::TryFromDeep]], vec![vec![Op::BuildA], vec![Op::UncachedDeep2]]] {
+                let r = explore(&body, None, 2_000_000, budget * 4.0, prefill);
+                total_exec += r.executions;
+                sweep2_exec += r.executions;
+                if r.capped {
+                    capped += 1;
+                }
+                if let Some(v) = r.violation {
+                    viol.add("", || Violation { key: String::new(), summary: format!("A built, then {prefill} other configurations, then threads {body:?}: {v}"), replay: json!({"fill_after_the_shared_scanner": prefill, "threads": format!("{body:?}"), "problem": v, "how": "build A through the cache, then `fill` distinct one-pattern configurations through the cache, then run the threads; loom::model over scnr built with feature verif_loom"}) });
+                    break 'sweep2;
+                }
+            }
+        }
+        FILL_AFTER_SHARED.store(false, Ordering::Relaxed);
+        prefilled.push(json!({"capacity_sweep_oldest_entries": {"typical_bounds": bounds2, "fill_values": fills2.len(), "threads": "[[TryFromA], [TryFromDeep]] and [[BuildA], [UncachedDeep2]]", "executions": sweep2_exec}}));
+    }
     let unexplored = bodies.len() - explored_bodies;
     // Supporting pass (sampling, not the deciding step): the same kinds of operations free-running on
     // OS threads, including uncached builds and drops, whose only shared state are reference counts of
